@@ -210,3 +210,17 @@ Theorem shorter_list_writes_same_leading_fields : forall specs vals l k, write_f
   concat l = (concat (firstn k l) ++ concat (skipn k l))%list.
 Proof. exact write_prefix. Qed.
 Print Assumptions shorter_list_writes_same_leading_fields.
+
+(** parse_string returns exactly one result per field of the record, whatever the line
+    (short, truncated, over-long) and whatever the read function *)
+Theorem parse_one_result_per_field : forall rf specs line, length (parse_string rf specs line) = length specs.
+Proof. exact parse_string_length. Qed.
+Print Assumptions parse_one_result_per_field.
+
+(** an empty line (readline at end of file) or a bare newline parses to "absent" in every
+    field: None, the empty string for an 's' field, under either read function *)
+Theorem empty_line_reads_all_absent : forall rf specs i f rest,
+  rf_ok rf -> nth_error specs i = Some f -> (rest = [] \/ rest = [newline]) ->
+  nth_error (parse_string rf specs rest) i = Some (match ft f with Ts => RStr [] | _ => RNone end).
+Proof. exact empty_line_all_absent. Qed.
+Print Assumptions empty_line_reads_all_absent.
